@@ -142,6 +142,22 @@ def proof_stage(ctx, mod):
             disc += 1
     ctx.discharged = disc
     ctx.extra['assumptions'] = rep
+    if ctx.tier == 'thorough':
+        # independent re-check of the compiled property library and everything it depends on
+        import subprocess
+        import time
+        t0 = time.time()
+        r = subprocess.run(['timeout', '1500', 'coqchk', '-silent', '-o', '-Q', '.', coq.LOGICAL, f'{coq.LOGICAL}.Props.{ctx.pid}'],
+                           cwd=coq.COQ, capture_output=True, text=True)
+        out = r.stdout + r.stderr
+        m = re.search(r'\* Axioms:(.*?)\n\s*\n', out, re.S)
+        axioms = ' '.join(m.group(1).split()) if m else None
+        unsafe = re.findall(r'\* (Constants/Inductives relying on [^:]*|Inductives whose positivity is assumed): (?!<none>)([^\n]+)', out)
+        ctx.extra['coqchk'] = {'exit': r.returncode, 'axioms': axioms, 'seconds': round(time.time() - t0, 1)}
+        if r.returncode != 0 or axioms is None:
+            ctx.broke('proof', 'coqchk', out[-800:])
+        elif axioms != '<none>' or unsafe:
+            ctx.broke('assumptions', 'coqchk', f'axioms: {axioms}; {unsafe}')
     return not problems and disc == len(names)
 
 
@@ -165,7 +181,7 @@ def write_evidence(ctx, mod, nviol):
     cov = {
         'obligations': max(ctx.obligations, 0),
         'discharged': ctx.discharged,
-        'checker_cmd': f'cd /verif/coq && make Props/{ctx.pid}.vo && coqc Print Assumptions script (tools/vlib/coq.py)',
+        'checker_cmd': f'cd /verif/coq && make Props/{ctx.pid}.vo && coqc Print Assumptions script (tools/vlib/coq.py); thorough tier adds coqchk -o -Q . CV CV.Props.{ctx.pid}',
         'trusted_base': tb,
         'evaluations': ctx.evaluations,
         'distinct_nontrivial': len(ctx.nontrivial),
